@@ -746,6 +746,9 @@ func blockerOrdering(c *Ctx) {
 					return false
 				}
 				for _, t := range w.CalleesOf(call) {
+					if os.Getenv("MCDEBUG") == "req" {
+						fmt.Fprintln(os.Stderr, "req", fn(t), reachesEffect(c, t, pred), "id=", id)
+					}
 					if !reachesEffect(c, t, pred) {
 						continue
 					}
@@ -755,7 +758,7 @@ func blockerOrdering(c *Ctx) {
 						if ctx != nil {
 							e = ctx.Apply(e)
 						}
-						if e.String() == id {
+						if e.String() == id || w.Expand(e, 4).String() == id {
 							return true
 						}
 					}
